@@ -130,15 +130,22 @@ CHECKS = {
               'above success) and the pre-registration of all segments are proved; the full statement is FALSE of the code on '
               'two history classes, each with a kernel-checked counter-example and a witness replayed on the real code every '
               'run: segment-reference-reuse (8-bit reference wraps while the earlier message is still in the status store: '
-              'outcome attributed to the other log_id) and wrong-type-response-consumes-request. NOT yet a theorem: the '
-              'history-level exactly-once ledger over arbitrary interleavings of segmented messages (covered by the '
+              'outcome attributed to the other log_id) and wrong-type-response-consumes-request. HISTORY LEVEL (Lemmas/History.lean, '
+              'invariant by induction over arbitrary operation lists): plain_message_exactly_once - over any history of requests '
+              'stored, responses handled (any type, status, order, duplicates, unknown numbers) and deliver_sm handled, at any '
+              'times, in which an unsegmented submit_sm with log id L and number q is stored once and the rest of the traffic does '
+              'not reuse q or L, the application sees at most one outcome carrying L, and exactly one once the response carrying q '
+              'is handled or a request is stored / a response handled after the time-to-live (provided responses carrying q have the '
+              'right type: the other case is the known finding); no_outcome_for_unknown_log_id - for all messages, segmented or '
+              'not, a log id no stored request carries never appears in an outcome. NOT yet a theorem: the '
+              'history-level exactly-once ledger for SEGMENTED messages over arbitrary interleavings (covered by the '
               'correspondence + ledger predicate on generated histories only). Session level (no theorem): the real ESME.start() on a '
               'virtual-time loop with a scripted SMSC (accept / reject / throttle / nack / silence / late), suspending hooks, back-pressure and '
               'dropped connections is judged by the ledger predicate (exactly one outcome per queued message, every response attributed, '
               'time-outs neither early nor late); it found the repaired defects 0eac14c, 829a54d, c79eab3 and two further known findings: '
               'response-overtakes-put and sender-cancelled-mid-message.'),
         note=COMMON_NOTE + 'Each correlator operation and each _handle_response run is atomic at this tier. log_id values are assumed distinct per message when judging attribution.',
-        technique='Lean 4 theorems (single-step refinement lemmas, max-aggregation law, kernel-checked counter-examples for the excluded classes); differential correspondence through the real handler with a ledger predicate'),
+        technique='Lean 4 theorems (history-level invariant by induction over operation lists for unsegmented messages, single-step refinement lemmas, max-aggregation law, kernel-checked counter-examples for the excluded classes); differential correspondence through the real handler with a ledger predicate'),
     'C02': dict(
         text=('Proof, PARTIAL (tier 2, atomic handlers). Props/C02.lean over the model of get_delivery / get_segmented / the receipt '
               'branch of ESME._handle_request: a receipt naming the id of an accepted unsegmented submit is handed over with '
